@@ -12,6 +12,7 @@ pub(super) fn generate_chain_extension_method(
     interface_name: &str,
     _trait_generics: &syn::Generics,
     method_attrs: &MethodAttrs,
+    param_renames: &[Option<String>],
     crate_path: &TokenStream,
 ) -> Result<(TokenStream, TokenStream), Error> {
     let method_name_str = method.sig.ident.to_string();
@@ -34,7 +35,7 @@ pub(super) fn generate_chain_extension_method(
     let method_where_clause = method.sig.generics.where_clause.clone();
 
     // Parse method arguments (skip &mut self)
-    let arg_infos = parse_method_arguments(method, has_explicit_lifetimes)?;
+    let arg_infos = parse_method_arguments(method, has_explicit_lifetimes, param_renames)?;
     let arg_names: Vec<_> = arg_infos.iter().map(|info| info.name).collect();
     let has_any_lifetime = arg_infos.iter().any(|info| info.has_lifetime);
 
@@ -58,6 +59,17 @@ pub(super) fn generate_chain_extension_method(
         })
         .collect();
 
+    // The fields of the parameters struct: same wire name and `None` handling as the plain method.
+    let struct_fields: Vec<_> = arg_infos
+        .iter()
+        .map(|info| {
+            let name = info.name;
+            let ty = &info.ty_for_params;
+            let serde_attrs = super::utils::param_serde_attrs(info);
+            quote! { #serde_attrs #name: #ty }
+        })
+        .collect();
+
     if arg_infos.is_empty() {
         generate_no_params_method(&method_ident, &method_path, crate_path)
     } else {
@@ -67,6 +79,7 @@ pub(super) fn generate_chain_extension_method(
             generics,
             combined_where_clause,
             param_fields,
+            struct_fields,
             arg_names,
             &method_generic_params,
             &method_where_clause,
@@ -80,7 +93,9 @@ pub(super) fn generate_chain_extension_method(
 fn parse_method_arguments<'a>(
     method: &'a mut syn::TraitItemFn,
     has_explicit_lifetimes: bool,
+    param_renames: &[Option<String>],
 ) -> Result<Vec<ArgInfo<'a>>, Error> {
+    let mut renames = param_renames.iter();
     method
         .sig
         .inputs
@@ -111,8 +126,8 @@ fn parse_method_arguments<'a>(
                 name,
                 ty_for_params,
                 has_lifetime,
-                is_optional: false,
-                serialized_name: None,
+                is_optional: crate::utils::is_option_type(ty),
+                serialized_name: renames.next().cloned().flatten(),
             }))
         })
         .collect()
@@ -195,6 +210,7 @@ fn generate_with_params_method(
     generics: TokenStream,
     combined_where_clause: TokenStream,
     param_fields: Vec<TokenStream>,
+    struct_fields: Vec<TokenStream>,
     arg_names: Vec<&syn::Ident>,
     method_generic_params: &syn::punctuated::Punctuated<syn::GenericParam, syn::Token![,]>,
     method_where_clause: &Option<syn::WhereClause>,
@@ -253,7 +269,7 @@ fn generate_with_params_method(
                 struct #params_struct_name #generics
                 #struct_where
                 {
-                    #(#param_fields,)*
+                    #(#struct_fields,)*
                 }
 
                 #[derive(::serde::Serialize, ::core::fmt::Debug)]
